@@ -45,7 +45,8 @@ Env     == [newBid |-> MyBid]
 
 St0 == [s |-> InitNode(Me, 1), inq |-> <<>>,
         timer |-> [h |-> 1, r |-> 1, step |-> NewHeight, armed |-> TRUE],      \* scheduleRound0
-        signed |-> <<>>, seen |-> {}]
+        signed |-> <<>>, seen |-> {},
+        evs |-> {}]       \* duplicate-vote evidence handed to the pool (tryAddVote -> AddEvidenceFromConsensus)
 
 \* outputs of a step: own messages go to the internal queue, timeouts to the ticker
 IsMsgOut(o) == o.o \in {"vote", "proposal", "part"}
@@ -68,6 +69,9 @@ LastTimer(out, cur) == IF out = <<>> THEN cur
                                                  THEN [h |-> Head(out).h, r |-> Head(out).r, step |-> Head(out).step, armed |-> TRUE]
                                                  ELSE cur)
 SignedOf(out) == SelectSeq(out, LAMBDA o : o.o \in {"vote", "proposal"})
+\* evidence is identified by the validator, the vote coordinates and the UNORDERED pair of block ids
+EvsOf(out) == {[i |-> out[k].i, type |-> out[k].type, h |-> out[k].h, r |-> out[k].r, pair |-> {out[k].a, out[k].b}] :
+                  k \in {j \in 1..Len(out) : out[j].o = "evidence"}}
 Panicked(out) == \E k \in 1..Len(out) : out[k].o = "panic"
 
 \* projection compared with the real node after every action
@@ -137,10 +141,10 @@ Call(t, a) ==
 Do(t, a) ==
   LET c == Call(t, a)
       t1 == [s |-> c.s, inq |-> c.inq0 \o MsgsOf(c.out), timer |-> LastTimer(c.out, c.timer0),
-             signed |-> t.signed \o SignedOf(c.out), seen |-> t.seen \cup c.seen]
+             signed |-> t.signed \o SignedOf(c.out), seen |-> t.seen \cup c.seen, evs |-> t.evs \cup EvsOf(c.out)]
   IN [t |-> t1, bad |-> Panicked(c.out),
       rec |-> [a |-> a, o |-> Proj(c.s), out |-> SelectSeq(c.out, LAMBDA o : o.o # "timeout"),
-               t |-> t1.timer, q |-> Len(t1.inq)]]
+               t |-> t1.timer, q |-> Len(t1.inq), ev |-> Cardinality(t1.evs), evl |-> t1.evs]]
 
 \* scripted prefixes: every action must be enabled where it is used
 RECURSIVE RunPrefix(_, _, _)
@@ -195,6 +199,10 @@ C03 == /\ OneVotePerTypeHR(st.signed)
        /\ PrecommitNeedsPolka(st.signed, st.seen)
        /\ LockRespected(st.signed, st.seen, AllBids)
        /\ OnlyValidVoted(st.signed)
+\* C19 (consensus side): evidence is produced only against a validator that really sent two different votes of
+\* one type for one height and round (both are in `seen` or were refused as the conflicting second vote)
+EvidenceOnlyForEquivocators ==
+  \A e \in st.evs : Cardinality(e.pair) = 2 /\ e.i # Me
 \* sanity of the transcription
 TypeOK == /\ st.s.lockedB # NoB => st.s.lockedR >= 1
           /\ st.s.validB # NoB => st.s.validR >= 1
